@@ -70,14 +70,17 @@ def gen(ctx):
                         for _ in range(n)], dtype=float)
         lon = np.array([rng.randrange(-170, 171, 5) + rng.choice([0, 0.25])
                         for _ in range(n)], dtype=float)
-        t, c = [], 0.0
+        # time axes counted from a distant epoch (hours since 1900 ...): a
+        # window is narrow relative to its bounds, yet its bounds differ
+        t, c = [], rng.choice([0.0, 0.0, 0.0, 2.0 ** 20, 1.5e6])
         for _ in range(T):
             c += rng.choice([1.0, 1.0, 2.0, 0.5])
             t.append(c)
         wins = []
         for _ in range(rng.randint(1, 4)):
             kind = rng.choice(["box", "box", "tall", "lateq", "loneq",
-                               "global", "onsample"])
+                               "global", "onsample", "narrowlat",
+                               "narrowlon"])
             t0, t1 = sorted([rng.choice(t), rng.choice(t)])
             la = sorted([rng.choice(list(lat)) - rng.choice([0, 2.5]),
                          rng.choice(list(lat)) + rng.choice([0, 2.5])])
@@ -89,6 +92,12 @@ def gen(ctx):
                 la = [la[0], la[0]]
             elif kind == "loneq":
                 lo = [lo[0], lo[0]]
+            elif kind == "narrowlat":       # distinct, nearly equal bounds
+                x = float(rng.choice(list(lat)))
+                la = [x - 1e-4, x + 1e-4]
+            elif kind == "narrowlon":
+                x = float(rng.choice(list(lon)))
+                lo = [x - 1e-4, x + 1e-4]
             elif kind == "global":
                 t0 = t1 = la[0] = la[1] = lo[0] = lo[1] = 0.0
             wins.append({"time_min": t0, "time_max": t1, "lat_min": la[0],
